@@ -23,6 +23,8 @@ RULES = {
     'C12.c': 'the query reads the live file and every rotated file; rotation renames; only the declutter clean-up removes rotated files',
     'C12.f': 'the clean-up of rotated files removes the OLDEST ones: the part of the listing it removes (suffix / prefix) agrees with '
              'the order the listing function sorts in (newest first / oldest first), counting reversals',
+    'C12.g': 'the catch-up hands the requester\'s timestamp to the query unchanged ("at or after"): the argument of the oplog query in '
+             'every caller originates from the caller\'s own parameter without arithmetic',
     'C12.e': 'the appender answers Ok only from a successful append: an Ok result is built only where the Ok edge of a call to the '
              'record writer dominates (after a rotation the record is appended again to the fresh file, so the live file is never '
              'left empty on a non-empty log and last_op_time stays the newest timestamp)',
@@ -33,6 +35,7 @@ RULES = {
 def run(ck, m):
     _run(ck, m)
     cleanup_rule(ck, m)
+    since_rule(ck, m)
 
 
 def _run(ck, m):
@@ -393,6 +396,27 @@ def listing_newest_first(P):
                 calls, params = slice_calls(sb, t['args'][0])
                 newest_first = 3 in params and 2 not in params
     return newest_first
+
+
+def since_rule(ck, m):
+    P = m.prog
+    q = [b for b in P.user_bodies() if b.id.endswith('disk_ops::read_operations_since')]
+    if len(q) != 1:
+        ck.undecided('C12.g', 'query', 'anchor', 'oplog query not found')
+        return
+    n = 0
+    for cb, cbi in P.callers().get(q[0].id, []):
+        if cb.id.startswith(('nundb::client::', 'nundb::command_line::')):
+            continue
+        n += 1
+        roots = origins(cb, cb.term(cbi)['args'][0])
+        plain = bool(roots) and all(r[0] in ('param', 'capture') for r in roots)
+        ck.ob('C12.g', short(cb.id), 'since-handed-on-unchanged', plain,
+              'the query is asked for the timestamp the requester reported' if plain else
+              'the timestamp handed to the oplog query is computed (%s), not the one the requester reported: records AT the reported time that '
+              'the requester does not have (same-timestamp records of one snapshot, the record repeated by a rotation) are never sent'
+              % sorted({r[0] for r in roots}), cb.loc(cbi))
+    ck.floor('C12.g', n, 1, 'callers of the oplog query')
 
 
 def cleanup_rule(ck, m):
